@@ -20,6 +20,10 @@ def main(argv):
     env.bootstrap(fake_rpy2=getattr(mod, "FAKE_RPY2", False))
     import numpy as np
     np.seterr(all="ignore")
+    if shard % 2 == 1:
+        # a user may configure how numpy *prints* arrays; results must not depend on it (half of the shards run with terse
+        # print options, under which str()/repr() of different arrays coincide)
+        np.set_printoptions(precision=2, threshold=5, edgeitems=1, suppress=True)
     rec = recorder.Recorder(pid, tier, seed, shard, nshards, soft_limit=soft)
     recorder.start_function_tracker(rec, env.repo_root())
     status = "ok"
